@@ -940,6 +940,8 @@ class Interp:
         def cont(s, v):
             if isinstance(v, ClassV):
                 v = ExcV(v.name, [])
+            if isinstance(v, RefV):
+                v = self.theory.raise_opaque(s, fr, v)
             if not isinstance(v, ExcV):
                 raise Unsupported("raise of non-exception value")
             return [(s, Exit(Exit.RAISE, v))]
